@@ -3,6 +3,7 @@ import RsslVerif.Lemmas.LexerInt
 import RsslVerif.Lemmas.LexerFloat
 import RsslVerif.Lemmas.Dec2Bin
 import RsslVerif.Lemmas.Dec2BinNearest
+import RsslVerif.Lemmas.Dec2BinCutoff
 /-!
 # C10 — lexing is lossless and numeric literals are exact
 
@@ -305,7 +306,7 @@ token carries `narrowOnce suffix (nearest64 (left ++ right) (exp - |right|))`: t
 theorem lex_float_nearest {inp rest : Bytes} {tok : Token} (h : literalFloat inp = .ok (rest, tok)) :
     ∃ (hasFraction : Bool) (left right : List Nat) (i2 : Bytes) (ty : Option FloatType),
       inp = left.map digitByte ++ ((if hasFraction then 46 :: right.map digitByte else []) ++ i2) ∧
-      (hasFraction = false → right = []) ∧
+      (hasFraction = false → right = []) ∧ (∀ d ∈ left ++ right, d < 10) ∧
       (tok.floatBits? = some (narrowOnce ty
           (Dec2Bin.nearest64 (left ++ right) ((opt (floatExponent i2) i2).2.getD 0 - right.length))) ∨
        ((opt (floatExponent i2) i2).2 = none ∧
@@ -313,7 +314,7 @@ theorem lex_float_nearest {inp rest : Bytes} {tok : Token} (h : literalFloat inp
         tok.floatBits? = some (narrowOnce ty Dec2Bin.binary64.infBits))) := by
   obtain ⟨hf, l, r, i2, ty, hm, hv⟩ := literalFloat_value h
   have ht := floatMantissa_text hm
-  exact ⟨hf, l, r, i2, ty, ht.1, ht.2, hv⟩
+  exact ⟨hf, l, r, i2, ty, ht.1, ht.2, floatMantissa_lt hm, hv⟩
 
 /-- non-vacuity / regression witnesses for the defect fixed in c2067b9: `0.0031308` and `0.055L` are the
 nearest doubles (the old digit-by-digit accumulation gave `…bd`+1 and `…29`+1) -/
@@ -325,17 +326,45 @@ example : (match literalFloat [48, 46, 48, 53, 53, 76] with
 /-! ## Part 4 — the rounding reference itself (`Spec/Dec2Bin.lean`) against the mathematical statement -/
 
 open Dec2Bin in
-/-- `nearest64 (digits, e)` is `nearestRat binary64` of the exact rational `digits × 10^e`, except for the two
-cut-offs that avoid astronomically large powers (`e > 400` ⟹ `+∞`, `e + |digits| < -400` ⟹ `0`; those two
-shortcuts are checked by the correspondence run only, class `float.huge_exponent`). -/
-theorem nearest64_unfold (ds : List Nat) (e : Int) (hD : ofDigits 10 ds ≠ 0) (h1 : e ≤ 400)
-    (h2 : -400 ≤ e + ds.length) :
-    nearest64 ds e =
-      if 0 ≤ e then nearestRat binary64 (ofDigits 10 ds * 10 ^ e.toNat) 1
-      else nearestRat binary64 (ofDigits 10 ds) (10 ^ (-e).toNat) := by
-  unfold nearest64 nearestDec
-  dsimp only
-  rw [if_neg hD, if_neg (by omega), if_neg (by omega)]
+/-- **nearest_correct**: for every positive rational `x = N / M`, `nearestRat f N M` is the bit pattern IEEE 754
+prescribes for round-to-nearest-ties-to-even (`Spec.Dec2Bin.IsNearestEven`: unit in the last place of `x`'s binade
+with gradual underflow, no value with a `p`-bit significand and exponent `≥ emin` closer, at most half an ulp off,
+exactly half ⇒ even significand, `+∞` exactly when the result rounded with unbounded exponent reaches
+`2^(emax+1)`). Both formats. -/
+theorem nearest_correct (f : Fmt) (hf : f = binary64 ∨ f = binary32) (N M : Nat) (hN : 0 < N) (hM : 0 < M) :
+    IsNearestEven f N M (nearestRat f N M) :=
+  nearestRat_isNearestEven f (by rcases hf with h | h <;> subst h <;> decide)
+    (by rcases hf with h | h <;> subst h <;> decide) N M hN hM
+
+open Dec2Bin in
+/-- **nearest64_total**: for every decimal digit string and every exponent, `nearest64 (digits, e)` is
+`nearestRat binary64` of the exact rational `digits × 10^e` — the two cut-offs of `nearestDec` (`e > 400` ⟹ `+∞`,
+`e + |digits| < -400` ⟹ `0`, which avoid astronomically large powers) are proved to agree with it. -/
+theorem nearest64_total (ds : List Nat) (e : Int) (hds : ∀ d ∈ ds, d < 10) :
+    nearest64 ds e = nearestRat binary64 (decimalRat ds e).1 (decimalRat ds e).2 := by
+  rw [nearest64_eq_nearestRat ds e hds]
+  unfold decimalRat
+  split <;> rfl
+
+open Dec2Bin in
+/-- **nearest64_correct**: the value the lexer model gives a float literal is the correctly rounded double of its
+decimal text: `IsNearestEven binary64 (digits × 10^e) (nearest64 digits e)` for every non-zero digit string and
+every exponent (a zero digit string gives `+0`). -/
+theorem nearest64_correct (ds : List Nat) (e : Int) (hds : ∀ d ∈ ds, d < 10) (hD : ofDigits 10 ds ≠ 0) :
+    IsNearestEven binary64 (decimalRat ds e).1 (decimalRat ds e).2 (nearest64 ds e) := by
+  rw [nearest64_total ds e hds]
+  have hDpos : 0 < ofDigits 10 ds := Nat.pos_of_ne_zero hD
+  apply nearest_correct binary64 (.inl rfl)
+  · unfold decimalRat; split
+    · exact Nat.mul_pos hDpos (Nat.pow_pos (by omega))
+    · exact hDpos
+  · unfold decimalRat; split
+    · exact Nat.one_pos
+    · exact Nat.pow_pos (by omega)
+
+open Dec2Bin in
+theorem nearest64_zero (ds : List Nat) (e : Int) (hD : ofDigits 10 ds = 0) : nearest64 ds e = 0 := by
+  unfold nearest64 nearestDec; simp [hD]
 
 open Dec2Bin in
 /-- **nearest_correct_partial**: for every positive rational `x = N / M` the reference returns the encoding of
@@ -365,17 +394,6 @@ theorem nearest_correct_partial (f : Fmt) (hf : f = binary64 ∨ f = binary32) (
   exact ⟨q, A, B, m, h1, h2, h3, h4, h5, h6,
     fun hq T m' hT hm' => finer_grid_not_closer f.p A B m m' T h2 (by omega) (h8 hq) hm' hT h4,
     h7, h8, h9, h10, h11⟩
-
-open Dec2Bin in
-/-- **nearest_correct**: for every positive rational `x = N / M`, `nearestRat f N M` is the bit pattern IEEE 754
-prescribes for round-to-nearest-ties-to-even (`Spec.Dec2Bin.IsNearestEven`: unit in the last place of `x`'s binade
-with gradual underflow, no value with a `p`-bit significand and exponent `≥ emin` closer, at most half an ulp off,
-exactly half ⇒ even significand, `+∞` exactly when the result rounded with unbounded exponent reaches
-`2^(emax+1)`). Both formats. -/
-theorem nearest_correct (f : Fmt) (hf : f = binary64 ∨ f = binary32) (N M : Nat) (hN : 0 < N) (hM : 0 < M) :
-    IsNearestEven f N M (nearestRat f N M) :=
-  nearestRat_isNearestEven f (by rcases hf with h | h <;> subst h <;> decide)
-    (by rcases hf with h | h <;> subst h <;> decide) N M hN hM
 
 open Dec2Bin in
 /-- **nearest_exact_on_representable**: a positive finite value `m · 2^q` of the format (canonical
